@@ -561,7 +561,7 @@ func Run(cfg Config) ([]Result, Stats, error) {
 			"C34_CHILD_CORPUS="+cfg.Corpus, "C34_CHILD_TARGET="+cfg.Target,
 			"C34_CHILD_FROM="+strconv.Itoa(from), "C34_CHILD_FROM_VARIANT="+strconv.Itoa(fromVar), "C34_CHILD_TO="+strconv.Itoa(to),
 			"C34_CHILD_ONE_CALL="+one, "C34_CHILD_PROGRESS="+prog, "C34_CHILD_OUT="+outp, "C34_CHILD_AS_LIMIT="+strconv.FormatUint(cfg.ASLimit, 10),
-			"GOTRACEBACK=all")
+			"GOTRACEBACK=all", "GOMAXPROCS=4")
 		ef, err := os.Create(errp)
 		if err != nil {
 			cancel()
